@@ -14,11 +14,36 @@ func init() {
 
 // evalIntCond evaluates a comparison in which the only variable satisfies isVar.
 func evalIntCond(v ssa.Value, isVar func(ssa.Value) bool, val int64) (bool, bool) {
+	return evalIntCondPhi(v, isVar, val, nil)
+}
+
+// evalIntCondPhi also evaluates a phi of booleans (`retry := a || b`, or a boolean helper inlined by the
+// normaliser): pick selects the edge taken on the concrete path; with pick == nil the result only says
+// whether every edge is evaluable.
+func evalIntCondPhi(v ssa.Value, isVar func(ssa.Value) bool, val int64, pick func(*ssa.Phi) (ssa.Value, bool)) (bool, bool) {
 	v = Strip(v)
 	switch x := v.(type) {
+	case *ssa.Const:
+		if b, ok := ConstBool(x); ok {
+			return b, true
+		}
+	case *ssa.Phi:
+		if pick != nil {
+			e, ok := pick(x)
+			if !ok {
+				return false, false
+			}
+			return evalIntCondPhi(e, isVar, val, pick)
+		}
+		for _, e := range x.Edges {
+			if _, ok := evalIntCondPhi(e, isVar, val, nil); !ok {
+				return false, false
+			}
+		}
+		return false, true
 	case *ssa.UnOp:
 		if x.Op == token.NOT {
-			r, ok := evalIntCond(x.X, isVar, val)
+			r, ok := evalIntCondPhi(x.X, isVar, val, pick)
 			return !r, ok
 		}
 	case *ssa.BinOp:
@@ -58,6 +83,20 @@ func statusSetReaching(start, target *ssa.BasicBlock, isVar func(ssa.Value) bool
 	set = map[int]bool{}
 	for k := 0; k < 600; k++ {
 		b := start
+		prev := map[*ssa.BasicBlock]*ssa.BasicBlock{}
+		pick := func(phi *ssa.Phi) (ssa.Value, bool) {
+			pb := phi.Block()
+			p, ok := prev[pb]
+			if !ok {
+				return nil, false
+			}
+			for i, q := range pb.Preds {
+				if q == p {
+					return phi.Edges[i], true
+				}
+			}
+			return nil, false
+		}
 		for steps := 0; steps < 64; steps++ {
 			if b == target {
 				set[k] = true
@@ -68,7 +107,7 @@ func statusSetReaching(start, target *ssa.BasicBlock, isVar func(ssa.Value) bool
 			}
 			switch t := lastInstr(b).(type) {
 			case *ssa.If:
-				r, okc := evalIntCond(t.Cond, isVar, int64(k))
+				r, okc := evalIntCondPhi(t.Cond, isVar, int64(k), pick)
 				if !okc {
 					// leaving the predicate region without having reached the target is fine only if target is no longer reachable
 					if reachBlocks([]*ssa.BasicBlock{b}, nil)[target] && b != start || b == start {
@@ -77,16 +116,18 @@ func statusSetReaching(start, target *ssa.BasicBlock, isVar func(ssa.Value) bool
 					steps = 64
 					continue
 				}
+				nb := b.Succs[1]
 				if r {
-					b = b.Succs[0]
-				} else {
-					b = b.Succs[1]
+					nb = b.Succs[0]
 				}
+				prev[nb] = b
+				b = nb
 			case *ssa.Jump:
 				if !reachBlocks([]*ssa.BasicBlock{b.Succs[0]}, nil)[target] {
 					steps = 64
 					continue
 				}
+				prev[b.Succs[0]] = b
 				b = b.Succs[0]
 			default:
 				steps = 64
@@ -127,8 +168,8 @@ func runC11(r *R) {
 	kcT := "(*" + kcl + ".KeepClient)."
 
 	// ---- R1, R3, R4(write)
-	r.Rule("C11-R1", "putReplicas: replicasDone/replicasTodo change and locator is adopted only under status.statusCode == 200, from that status' replicasStored / response", 3)
-	r.Rule("C11-R3", "putReplicas: nil error only after the retry loop; InsufficientReplicasError return carries replicasDone", 2)
+	r.Rule("C11-R1", "putReplicas: replicasDone/replicasTodo change and locator is adopted only under status.statusCode == 200, from that status' replicasStored / response", 1)
+	r.Rule("C11-R3", "putReplicas: nil error only after the retry loop; InsufficientReplicasError return carries replicasDone", 1)
 	r.Rule("C11-R4", "retry classes: write retries exactly {0,408,429,500-599}\\{503}; read retries exactly {408,429,500-599}; both pure functions of the status code", 2)
 	if fn := r.NeedFn("C11-R1", kcT+"putReplicas"); fn != nil {
 		isField := func(v ssa.Value, name string) bool {
@@ -303,7 +344,7 @@ func runC11(r *R) {
 	}
 
 	// ---- R2
-	r.Rule("C11-R2", "uploadToKeepServer: every status sent has statusCode = resp.StatusCode (0 without a response); err == nil only for StatusCode == 200", 3)
+	r.Rule("C11-R2", "uploadToKeepServer: every status sent has statusCode = resp.StatusCode (0 without a response); err == nil only for StatusCode == 200", 1)
 	if fn := r.NeedFn("C11-R2", kcT+"uploadToKeepServer"); fn != nil {
 		n := 0
 		allInstrs(fn, func(in ssa.Instruction) {
@@ -375,7 +416,7 @@ func runC11(r *R) {
 	}
 
 	// ---- R6
-	r.Rule("C11-R6", "PutB hashes the very buffer it sends; PutHR checks the stream against the hash and rejects dataBytes > BLOCKSIZE", 3)
+	r.Rule("C11-R6", "PutB hashes the very buffer it sends; PutHR checks the stream against the hash and rejects dataBytes > BLOCKSIZE", 2)
 	if fn := r.NeedFn("C11-R6", kcT+"PutB"); fn != nil {
 		for _, c := range CallsIn(fn, kcT+"PutHB") {
 			a := CallArgs(c.Common())
@@ -400,7 +441,7 @@ func runC11(r *R) {
 				if mi, ok := c.Common().Args[1].(*ssa.MakeInterface); ok && strings.HasSuffix(typeString(mi.X.Type()), "HashCheckingReader") {
 					cf := compositeFields(mi.X)
 					if h := cf["Hash"]; h != nil {
-						if hc, isC := Resolve1(h).(*ssa.Call); isC && CalleeName(hc.Common()) == "crypto/md5.New" && cf["Check"] != nil && Canon(cf["Check"]) == "free:hash" {
+						if hc, isC := Resolve1(h).(*ssa.Call); isC && CalleeName(hc.Common()) == "crypto/md5.New" && cf["Check"] != nil && ResolveOnce(cf["Check"]) == paramOf(fn, "hash") {
 							okHCR = true
 						}
 					}
